@@ -27,7 +27,10 @@ pub fn scenarios(ctx: &Ctx) -> Vec<Case> {
         c.meta["keys"] = json!(keys_for(&c.name));
         out.push(c);
     };
-    for item in scen::source_items(&ctx.corpus) {
+    let quick = ctx.tier == Tier::Quick;
+    // generated programs ("gen/" items): a seed-rotated third of them in quick
+    let take = |item: &crate::corpus::Item| -> bool { !(quick && item.id.starts_with("gen/") && rng::mix(ctx.seed, &item.id, 7) % 3 != 0) };
+    for item in scen::source_items(&ctx.corpus).into_iter().filter(|i| take(i)) {
         // compile with debug info (+ thecl defs): diagnostics order, debug-info content;
         // then decompile and recompile: decompiled text, names chosen, recompiled bytes
         let mut c = scen::source_roundtrip_case(item, &[], None);
@@ -40,7 +43,7 @@ pub fn scenarios(ctx: &Ctx) -> Vec<Case> {
     // error paths are where order dependence hides (several diagnostics compete): every source also
     // runs with a few seed-drawn storage corruptions of the script or of one of its mapfiles
     let n_corrupt = if ctx.tier == Tier::Quick { 1 } else { 6 };
-    for item in scen::source_items(&ctx.corpus) {
+    for item in scen::source_items(&ctx.corpus).into_iter().filter(|i| take(i)) {
         let base = scen::compile_case(item, true);
         let mut r = crate::rng::Rng::new(rng::mix(ctx.seed, &item.id, 190));
         for j in 0..n_corrupt {
